@@ -335,7 +335,8 @@ def gen_c03(tier, seed):
         meta["extra"] = [hx(e) for e in extra] if "envx" in o else None
         meta["penv"] = penv
         # working directory and program resolution
-        if kind in (4, 5, 6):
+        gone = kind == 6 and r.random() < 0.35
+        if kind in (4, 5, 6) and not gone:
             # relative program name; a *different* x lives in the requested working directory
             reldir = r.choice(["p", "p/q", "dir with space"])
             wdname = "elsewhere"
@@ -353,6 +354,15 @@ def gen_c03(tier, seed):
                 o["wdx"] = hx(wdname.encode())
                 meta["wd_rel"] = wdname
             meta["expect_tag"] = "right"
+            parts.append(start_tokens(0, o))
+        elif gone:
+            # the parent's working directory has been removed: a relative program cannot be resolved
+            # at all; the same relative name exists under the requested working directory (decoy).
+            # Only a clean failure is right - running the decoy is resolution against the wrong place.
+            parts += ["N 0", "MKDIRS %s" % hx(b"h0/wd/p"), "LINKVC 0 %s wrong" % hx(b"x"), "CHDIR %s" % hx(b"../../.."), "RMCWD"]
+            o["progx"] = hx(b"p/x")
+            o["wd"] = 1
+            meta["cwd_gone"] = 1
             parts.append(start_tokens(0, o))
         elif kind == 7:
             # bare name through PATH (parent and child PATH agree: behavior extend, PATH untouched)
@@ -425,6 +435,14 @@ def judge_c03(case, log):
     s = sops[0]
     idents = [e for e in log.events if e.get("ev") == "ident"]
     hellos = [e for e in log.events if e.get("ev") == "hello"]
+    if m.get("cwd_gone"):
+        obs["removed_cwd_cases"] = obs.get("removed_cwd_cases", 0) + 1
+        if "hang" in s:
+            V(vs, "C03", "removed-cwd-hang", "start hangs when the parent's working directory has been removed")
+        elif s["ret"] > 0:
+            tag = hellos[0].get("tag") if hellos else None
+            V(vs, "C03", "wrong-program-resolved:removed-cwd", "the parent's working directory is gone, so the relative program cannot be resolved; start returned %d and the program that ran is tagged '%s' (the one under the child's working directory)" % (s["ret"], tag))
+        return vs, obs, True
     if "deep" in m:
         obs["deep_cwd_cases"] += 1
         if "hang" in s:
